@@ -238,36 +238,7 @@ struct Case {
     term: Vec<u8>,
 }
 
-/// every line ends in "\n"
-const TERM_LF: u8 = 0;
-/// the last line of the file has no line terminator (needs a non-empty last line to be the same lines)
-const TERM_LAST_OPEN: u8 = 1;
-/// every line ends in "\r\n"
-const TERM_CRLF: u8 = 2;
-
-/// the bytes of a file with the given lines
-fn file_body(lines: &[String], term: u8) -> String {
-    let nl = if term == TERM_CRLF { "\r\n" } else { "\n" };
-    let mut s: String = lines.iter().map(|l| format!("{l}{nl}")).collect();
-    if term == TERM_LAST_OPEN && lines.last().map(|l| !l.is_empty()).unwrap_or(false) {
-        s.truncate(s.len() - 1);
-    }
-    s
-}
-
-/// the ways of writing the files other than all-LF: every non-empty set of files whose (non-empty)
-/// last line is left unterminated, and all files with CRLF line ends
-fn term_patterns(files: &[Vec<String>]) -> Vec<Vec<u8>> {
-    let n = files.len();
-    let mut out = vec![];
-    for mask in 1u32..(1 << n) {
-        if (0..n).all(|i| mask & (1 << i) == 0 || files[i].last().map(|l| !l.is_empty()).unwrap_or(false)) {
-            out.push((0..n).map(|i| if mask & (1 << i) != 0 { TERM_LAST_OPEN } else { TERM_LF }).collect());
-        }
-    }
-    out.push(vec![TERM_CRLF; n]);
-    out
-}
+use tu_verif::filesets::{compositions, file_body, term_from_name, term_name, term_patterns, TERM_LF};
 
 fn opt_json(o: Option<usize>) -> Value {
     o.map(|v| json!(v)).unwrap_or(Value::Null)
@@ -277,7 +248,7 @@ impl Case {
     fn json(&self) -> Value {
         json!({"files": self.files, "max_size": opt_json(self.max_size), "max_sequences": opt_json(self.max_sequences),
                "use_characters": self.use_characters, "char_grams": self.char_grams, "num_threads": self.threads,
-               "line_termination_per_file": self.term.iter().map(|t| match *t { TERM_LAST_OPEN => "last line unterminated", TERM_CRLF => "crlf", _ => "lf" }).collect::<Vec<_>>()})
+               "line_termination_per_file": self.term.iter().map(|t| term_name(*t)).collect::<Vec<_>>()})
     }
     fn from_json(v: &Value) -> Case {
         let opt = |x: &Value| x.as_u64().map(|n| n as usize);
@@ -288,7 +259,7 @@ impl Case {
             use_characters: v["use_characters"].as_bool().unwrap(),
             char_grams: v["char_grams"].as_u64().unwrap() as u8,
             threads: v["num_threads"].as_array().unwrap().iter().map(|t| t.as_u64().unwrap() as u8).collect(),
-            term: v["line_termination_per_file"].as_array().map(|a| a.iter().map(|t| match t.as_str() { Some("last line unterminated") => TERM_LAST_OPEN, Some("crlf") => TERM_CRLF, _ => TERM_LF }).collect()).unwrap_or_default(),
+            term: v["line_termination_per_file"].as_array().map(|a| a.iter().map(|t| term_from_name(t.as_str())).collect()).unwrap_or_default(),
         }
     }
 }
@@ -378,23 +349,6 @@ fn check_case(run: &mut Run, ctx: &mut Ctx, case: &Case) {
     if case.files.len() > 1 {
         run.count("configurations with several files");
     }
-}
-
-/// all ways of cutting `lines` into consecutive non-empty files
-fn compositions(lines: &[String]) -> Vec<Vec<Vec<String>>> {
-    let n = lines.len();
-    let mut out = vec![];
-    for mask in 0..(1u32 << (n - 1)) {
-        let mut files: Vec<Vec<String>> = vec![vec![]];
-        for (i, l) in lines.iter().enumerate() {
-            if i > 0 && mask & (1 << (i - 1)) != 0 {
-                files.push(vec![]);
-            }
-            files.last_mut().unwrap().push(l.clone());
-        }
-        out.push(files);
-    }
-    out
 }
 
 // ------------------------------------------------------------------------------------------------
